@@ -166,6 +166,23 @@ theorem invC_splice (c : Core) (h : InvC c) (si ti k : Nat) (src : Sheet) (hs : 
       apply moveLoc_lt _ _ _ _ hsi _ (h.defs_ok d0 hd0 l0 hloc)
       split <;> omega
 
+theorem adjustDefs_loc (defs : List DefName) (a b : Name) :
+    ∀ d ∈ adjustDefs defs a b, ∃ d0 ∈ defs, d.loc = d0.loc ∧ d.name = d0.name := by
+  intro d hd
+  unfold adjustDefs at hd
+  split at hd
+  · obtain ⟨d0, hd0, rfl⟩ := List.mem_map.mp hd
+    exact ⟨d0, hd0, rfl, rfl⟩
+  · exact ⟨d, hd, rfl, rfl⟩
+
+theorem invC_defs (c : Core) (h : InvC c) (defs' : List DefName)
+    (hd : ∀ d ∈ defs', ∃ d0 ∈ c.defs, d.loc = d0.loc) : InvC ⟨c.count, c.activeTab, c.sheets, defs'⟩ := by
+  have hdo : ∀ d ∈ defs', ∀ l, d.loc = some l → l < c.sheets.length := by
+    intro d hdm l hl
+    obtain ⟨d0, hd0, he⟩ := hd d hdm
+    exact h.defs_ok d0 hd0 l (by rw [← he]; exact hl)
+  exact { h with defs_ok := hdo }
+
 theorem invC_rename (c : Core) (h : InvC c) (a b : Name) (hv : validName b = true)
     (hf : fold b = fold a ∨ ∀ sh ∈ c.sheets, fold sh.name ≠ fold b) :
     InvC ⟨c.count, c.activeTab, renameList c.sheets a b, c.defs⟩ where
@@ -337,19 +354,21 @@ theorem getDefinedNameScope_lt (s : St) (sc : Name) (loc : Option Nat) (h : getD
       cases hl
       exact idxOf?_lt _ _ _ (getSheetIndex_ok _ _ _ hg).2.symm
 
-theorem setDefinedName_core (s s' : St) (k : Nat) (sc : Name) (h : setDefinedName s k sc = .ok s') :
+theorem setDefinedName_core (s s' : St) (k : Nat) (sc dt : Name) (h : setDefinedName s k sc dt = .ok s') :
     ∃ loc, (∀ l, loc = some l → l < s.sheets.length) ∧
-      core s' = ⟨s.count, s.activeTab, s.sheets, s.defs ++ [⟨k, loc⟩]⟩ := by
+      core s' = ⟨s.count, s.activeTab, s.sheets, s.defs ++ [⟨k, loc, dt⟩]⟩ := by
   unfold setDefinedName at h
   split at h
   · cases h
   · split at h
     · cases h
-    · rename_i loc hloc
-      split at h
+    · split at h
       · cases h
-      · cases h
-        exact ⟨loc, getDefinedNameScope_lt s sc loc hloc, rfl⟩
+      · rename_i loc hloc
+        split at h
+        · cases h
+        · cases h
+          exact ⟨loc, getDefinedNameScope_lt s sc loc hloc, rfl⟩
 
 /-- every API call preserves the list invariant -/
 theorem step_inv (s : St) (op : Op) (h : Inv s) : Inv (step s op).1 := by
@@ -388,9 +407,17 @@ theorem step_inv (s : St) (op : Op) (h : Inv s) : Inv (step s op).1 := by
     simp only [step]
     split
     · rename_i s' hr
-      rcases setSheetName_core s s' a b hr with rfl | ⟨hv, hf, hc⟩
+      rcases setSheetName_core s s' a b hr with rfl | ⟨hv, hf, hc⟩ | hc
       · exact h
-      · rw [hc]; exact invC_rename (core s) h a b hv hf
+      · rw [hc]
+        have h1 := invC_rename (core s) h a b hv hf
+        exact invC_defs _ h1 _ (fun d hd => by
+          obtain ⟨d0, hd0, he, _⟩ := adjustDefs_loc s.defs a b d hd
+          exact ⟨d0, hd0, he⟩)
+      · rw [hc]
+        exact invC_defs (core s) h _ (fun d hd => by
+          obtain ⟨d0, hd0, he, _⟩ := adjustDefs_loc s.defs a b d hd
+          exact ⟨d0, hd0, he⟩)
     · exact h
   | visible n v vh =>
     simp only [step]
@@ -429,11 +456,11 @@ theorem step_inv (s : St) (op : Op) (h : Inv s) : Inv (step s op).1 := by
     split
     · rename_i s' hu; rw [ungroupSheets_core s s' hu]; exact h
     · exact h
-  | defname k sc =>
+  | defname k sc dt =>
     simp only [step]
     split
     · rename_i s' hd
-      obtain ⟨loc, hl, hc⟩ := setDefinedName_core s s' k sc hd
+      obtain ⟨loc, hl, hc⟩ := setDefinedName_core s s' k sc dt hd
       rw [hc]
       exact { h with
         defs_ok := by
